@@ -540,6 +540,11 @@ def gen_inc(rng, nrec, exotic=False):
     state = {"filt": False}
 
     def instruction(text):
+        # inert garbage directly in front of an instruction: the junk ends where the
+        # instruction starts (also on the same line: #word args is recognised anywhere)
+        gaps(rng, b, N_GARBAGE, allow_blank=state["filt"] and b.n > 0, rate=0.3,
+             same_line=[g for g in N_GARBAGE if not g.startswith("#")])
+        b.layout.setdefault("instruction", []).append(text.split()[0])
         b.item()
         b.emit("#" + text + "\n")
         b.expected.append(["I", text])
@@ -571,6 +576,9 @@ def gen_inc(rng, nrec, exotic=False):
         if switch == i:
             instruction(pick(rng, b, "filter_spelling", ["filter emptyLines", "filter emptyLines",
                                                           "filter  emptyLines", "filter emptylines"]))
+        if not direct and pick(rng, b, "other_instruction", [False] * 7 + [True]):
+            instruction(rng.choice(["include other.inc", "expand __X__ y", "filter substitution",
+                                    "unfilter substitution"]))
         filt = state["filt"]
         if not direct:
             if filt and b.n > 0:
@@ -926,7 +934,7 @@ def gen_android(rng, nrec, exotic=False):
             if key not in used:
                 used.add(key)
                 break
-        kind = pick(rng, b, "value_kind", ["text", "text", "text", "cdata", "empty"])
+        kind = pick(rng, b, "value_kind", ["text", "text", "text", "cdata", "cdata-in-whitespace", "empty"])
         nt = pick(rng, b, "value_tokens", [1, 2, 3, 5, 8])
         if kind == "text":
             toks = []
@@ -943,6 +951,13 @@ def gen_android(rng, nrec, exotic=False):
         elif kind == "cdata":
             val = "".join(rng.choice(A_PLAIN + "<>&\n") for _ in range(nt)).replace("]]>", "]] >")
             src = "<![CDATA[" + val + "]]>"
+        elif kind == "cdata-in-whitespace":
+            # the CDATA section is the value also when indentation surrounds it
+            val = "".join(rng.choice(list(A_PLAIN + "<>&\n") + ["<b>bold</b>", "it\\'s", "&amp;", "<a href=\"x\">"])
+                          for _ in range(nt)).replace("]]>", "]] >")
+            w1 = pick(rng, b, "cdata_lead", ["\n" + ind + "  ", " ", "\n", ""])
+            w2 = rng.choice(["\n" + ind, " ", "\n"]) if w1 == "" else rng.choice(["\n" + ind, " ", "\n", ""])
+            src = w1 + "<![CDATA[" + val + "]]>" + w2
         else:
             src, val = "", ""
         pre = pending if first else None
